@@ -9,6 +9,7 @@ import (
 	"strconv"
 	"strings"
 
+	"github.com/spf13/afero"
 	"github.com/spf13/afero/mem"
 
 	"verifharness/corr"
@@ -51,8 +52,9 @@ func FileErrClass(err error) string {
 }
 
 type memFileImpl struct {
-	fd *mem.FileData
-	hs []*mem.File
+	fd    *mem.FileData
+	hs    []*mem.File
+	viaFs afero.Fs // set when the handles were obtained from a MemMapFs (cases with an 'a' handle)
 }
 
 func atoi(s string) int {
@@ -86,6 +88,35 @@ func c02RunImpl(c corr.Case) []string {
 	for _, line := range c.Lines {
 		t := strings.Fields(line)
 		out = append(out, guard(func() string {
+			if t[0] == "case" && strings.Contains(t[2], "a") {
+				// handles as MemMapFs hands them out ('a': opened with O_APPEND — positioned at the end, an ordinary handle otherwise)
+				fs := afero.NewMemMapFs()
+				if err := afero.WriteFile(fs, "/f", corr.UnHex(t[1]), 0o644); err != nil {
+					panic(err)
+				}
+				st = memFileImpl{viaFs: fs}
+				for _, m := range t[2] {
+					var f afero.File
+					var err error
+					switch m {
+					case 'r':
+						f, err = fs.Open("/f")
+					case 'a':
+						f, err = fs.OpenFile("/f", os.O_RDWR|os.O_APPEND, 0)
+					default:
+						f, err = fs.OpenFile("/f", os.O_RDWR, 0)
+					}
+					if err != nil {
+						panic(err)
+					}
+					st.hs = append(st.hs, f.(*mem.File))
+				}
+				return "case"
+			}
+			if t[0] == "size" && st.viaFs != nil {
+				fi, _ := st.viaFs.Stat("/f")
+				return fmt.Sprintf("size=%d", fi.Size())
+			}
 			if t[0] == "case" {
 				st = memFileImpl{fd: mem.CreateFile("/f")}
 				if d := corr.UnHex(t[1]); len(d) > 0 {
@@ -215,7 +246,11 @@ func (f *Flat) Step(t []string) string {
 		f.data = append([]byte(nil), corr.UnHex(t[1])...)
 		f.hs = nil
 		for _, m := range t[2] {
-			f.hs = append(f.hs, flatH{ro: m == 'r'})
+			h := flatH{ro: m == 'r'}
+			if m == 'a' {
+				h.pos = int64(len(f.data))
+			}
+			f.hs = append(f.hs, h)
 		}
 		return "case"
 	case "size":
@@ -436,6 +471,9 @@ func c02Random(r *corr.Rand, tier string) []corr.Case {
 				modes += "w"
 			}
 		}
+		if i%5 == 4 { // a fifth of the programs use handles as MemMapFs hands them out, one of them opened with O_APPEND
+			modes = modes[:len(modes)-1] + "a"
+		}
 		var f Flat
 		hdr := fmt.Sprintf("case %s %s", corr.Hex(payload(rr, rr.Intn(7))), modes)
 		f.Step(strings.Fields(hdr))
@@ -542,6 +580,10 @@ func c02Corpus() []corr.Case {
 		mk("case 01020304 wr", "seek 0 1 0", "seek 0 -3 1", "seek 0 0 1", "read 0 2", "write 0 09", "seek 1 2 0", "seek 1 -5 1", "seek 1 0 1", "read 1 4", "copyout 1", "size"),
 		// io.Copy out of a handle: from the position to the end, at the end, beyond the end, closed
 		mk("case 0102030405 wr", "seek 1 2 0", "copyout 1", "copyout 1", "read 1 1", "seek 1 9 0", "copyout 1", "copyout 0", "write 0 0a0b", "seek 0 1 0", "copyout 0", "close 1", "copyout 1", "size"),
+		// offsets at the top of the int64 range
+		mk("case 0102030405 wr", "readat 1 2 9223372036854775806", "readat 1 1 9223372036854775807", "readat 1 4 9223372036854775804", "readat 0 3 9223372036854775805", "readat 1 2 3", "seek 1 9223372036854775807 0", "read 1 1", "seek 1 0 0", "read 1 2", "size"),
+		// a handle opened with O_APPEND starts at the end and is an ordinary handle from there on
+		mk("case 0102030405 awr", "write 0 0a", "seek 0 1 0", "write 0 0b", "writeat 0 0c0d 0", "seek 0 0 1", "writestring 0 0e", "write 1 0f", "write 0 10", "trunc 1 3", "write 0 11", "readat 2 16 0", "size"),
 		// zero-length operations beyond EOF
 		mk("case 01 wr", "readat 1 0 5", "seek 1 3 0", "read 1 0", "writeat 0 - 4", "size"),
 	}
